@@ -800,7 +800,15 @@ func runC07(c *hc.Ctx) error {
 			if other := clonePoly(poly); len(other) > 0 && len(other[0]) > 0 {
 				cfgI := cfg
 				if rep == 0 {
-					other[0][len(other[0])-1] = Pt{g.Ext[0] - g.Res, other[0][len(other[0])-1][1]}
+					// vertices half-way along this polygon's edges (inside pixels its edges pass through), then one outside
+					ring := other[0]
+					var mids []Pt
+					for k := range ring {
+						a, b := ring[k], ring[(k+1)%len(ring)]
+						mids = append(mids, Pt{(a[0] + b[0]) / 2, (a[1] + b[1]) / 2})
+					}
+					mids = append(mids, Pt{g.Ext[0] - g.Res, ring[0][1]})
+					other = [][]Pt{mids}
 					cfgI.IgnoreOutsideGrid = true
 				} else {
 					other[0][0] = Pt{other[0][0][0] + g.Res, other[0][0][1]}
